@@ -355,7 +355,25 @@ class Ctx:
             r["obligations"] - len(r["failed"]), r["obligations"], r["file"],
             "" if not r["failed"] else " -- FAILED: " + r["log"][-1500:]))
         self.proof_result = r
+        if self.tier == "thorough" and not r["failed"]:
+            self.coqchk(prop_dir, thm_file[:-2])
         return r
+
+    def coqchk(self, prop_dir, module):
+        """Thorough tier: re-check the compiled theorems file and everything it depends on with the
+        independent checker, and record the axioms it reports."""
+        t0 = time.time()
+        rc, o = sh(["coqchk", "-silent", "-o", "-Q", ".", "V", "V.%s.%s" % (prop_dir, module)], cwd=COQ, timeout=5400)
+        ax = ""
+        m = re.search(r"\* Axioms:(.*?)\n\s*\n\* Constants", o, re.S)
+        if m:
+            ax = " ".join(m.group(1).split())
+        self.notes["coqchk"] = {"rc": rc, "axioms": ax, "wall_s": round(time.time() - t0, 1),
+                                "cmd": "coqchk -silent -o -Q coq V V.%s.%s" % (prop_dir, module)}
+        self.log("coqchk: rc=%d axioms=%s (%.0fs)" % (rc, ax, time.time() - t0))
+        if rc != 0 or (ax and ax != "<none>"):
+            self.proof_result["failed"] = self.proof_result["names"]
+            self.proof_result["log"] = "coqchk failed or reported axioms: rc=%d %s\n%s" % (rc, ax, o[-1500:])
 
     def proof_violation_if_broken(self, r, searched_desc):
         """Call AFTER the failing-input search: a broken theorem with no failing input found."""
